@@ -130,6 +130,7 @@ def hook(sc, cfg):
 
 def run(ctx):
     C.proof_step(ctx, ['call(): the wait primitive (eio.create_event().wait) is scripted: the nested inputs run while the caller waits'])
+    C.audit_extra(ctx, 'GlueServer', ['call_timeouts'])
     S.run_cases(ctx, PROFILE, ctx.scale(150, 3000), 70, oracle=oracle, nontrivial=nontrivial, gen_hook=hook)
     ctx.coverage['rule'] = ('emits with callbacks / call() to individual clients on several namespaces interleaved with ACK and '
                             'BINARY_ACK packets from any client with correct, duplicate, never-issued, other-client, '
